@@ -104,7 +104,7 @@ theorem inv_stake {s s' : State} {sender id denom amt} (hi : Inv s) (hu : isModu
   have hp2 : getPool s2 id = some p1 := getPool_set_self _ _ _ _ ok.pools
   have hp3 : getPool s3 id = some p1 := by unfold getPool; rw [b3.pools]; exact hp2
   have w1 := c2.wf id p1 hp2
-  refine ⟨?_, hst, ?_⟩
+  refine ⟨?_, hst, ?_, ?_⟩
   · refine core_setFarmer (p1 := p1) c3 rfl rfl rfl rfl hp3 ?_
     exact cacl_debt_ok hc w1.nodup w1.rpsNN (by push_cast; rfl)
   · rw [moduleAccount_iff]
@@ -116,6 +116,7 @@ theorem inv_stake {s s' : State} {sender id denom amt} (hi : Inv s) (hu : isModu
     refine (gap_congr (s := s3) rfl rfl d).trans ?_
     rw [g3, g2, g1, g0, sumOf_single, hden]
     split <;> omega
+  · exact cpUsers_of_cp (by show s3.cp = _; rw [b3.cp, ok.cp, b1.cp]) hi.cpu
 
 theorem inv_harvest {s s' : State} {sender id} (hi : Inv s) (hu : isModuleAcc sender = false)
     (h : stepHarvest s sender id = .ok s') : Inv s' := by
@@ -129,7 +130,7 @@ theorem inv_harvest {s s' : State} {sender id} (hi : Inv s) (hu : isModuleAcc se
   have hp1 : getPool s1 id = some p1 := getPool_set_self _ _ _ _ ok.pools
   have hp2 : getPool s2 id = some p1 := by unfold getPool; rw [b2.pools]; exact hp1
   have w1 := c1.wf id p1 hp1
-  refine ⟨?_, hst, ?_⟩
+  refine ⟨?_, hst, ?_, ?_⟩
   · refine core_setFarmer (p1 := p1) c2 rfl rfl rfl rfl hp2 ?_
     exact cacl_debt_ok hc w1.nodup w1.rpsNN (by simp)
   · rw [moduleAccount_iff]
@@ -140,6 +141,7 @@ theorem inv_harvest {s s' : State} {sender id} (hi : Inv s) (hu : isModuleAcc se
     refine (gap_congr (s := s2) rfl rfl d).trans ?_
     rw [g2, g1, g0]
     split <;> omega
+  · exact cpUsers_of_cp (by show s2.cp = _; rw [b2.cp, ok.cp]) hi.cpu
 
 /-- the pool leg of `Unstake` keeps `Core` and moves the gap by the amount -/
 theorem unstakePool_core {s s1 : State} {id : PoolId} {p p1 : Pool} {amt : Nat}
@@ -227,6 +229,14 @@ theorem unstakePool_core {s s1 : State} {id : PoolId} {p p1 : Pool} {amt : Nat}
     rw [gap_updOk ok hp d]
     split <;> omega
 
+theorem unstakePool_cp {s s1 : State} {id : PoolId} {p p1 : Pool} {amt : Nat}
+    (h : unstakePool s id p amt = (s1, .ok p1)) : s1.cp = s.cp := by
+  unfold unstakePool at h
+  split at h
+  · simp only [Prod.mk.injEq, Except.ok.injEq] at h
+    rw [← h.1]; rfl
+  · exact (updatePool_ok h).cp
+
 theorem inv_unstake {s s' : State} {sender id denom amt} (hi : Inv s) (hu : isModuleAcc sender = false)
     (h : stepUnstake s sender id denom amt = .ok s') : Inv s' := by
   have hst := stakes_unstake hi.stakes h
@@ -238,7 +248,7 @@ theorem inv_unstake {s s' : State} {sender id denom amt} (hi : Inv s) (hu : isMo
   have c3 := core_bankOnly b3 (core_bankOnly b2 c1)
   have hp3 : getPool s3 id = some p1 := by unfold getPool; rw [b3.pools, b2.pools]; exact hp1
   have w1 := c1.wf id p1 hp1
-  refine ⟨?_, hst, ?_⟩
+  refine ⟨?_, hst, ?_, ?_⟩
   · by_cases hz : f.locked - amt = 0
     · simp only [hz, if_true]
       exact core_eraseFarmer c3 rfl rfl rfl rfl
@@ -253,5 +263,9 @@ theorem inv_unstake {s s' : State} {sender id denom amt} (hi : Inv s) (hu : isMo
     refine (gap_congr (s := s3) rfl rfl d).trans ?_
     rw [g3, g2, hg1 d, g0, sumOf_single, hden]
     split <;> omega
+  · have hcp : s3.cp = s.cp := by rw [b3.cp, b2.cp]; exact unstakePool_cp hbr
+    by_cases hz : f.locked - amt = 0
+    · simp only [hz, if_true]; exact cpUsers_of_cp (s := s) hcp hi.cpu
+    · simp only [hz, if_false]; exact cpUsers_of_cp (s := s) hcp hi.cpu
 
 end Irismod.Proofs.Farm
